@@ -43,6 +43,11 @@ def report_failures(ctx, summ, prop, race=False):
         opt = f.get('opt')
         if k.startswith('parse: '):
             what = 'regal fails to parse a module that OPA\'s own parser accepts (%s): the whole run is lost: %s' % (f['modules'][0]['src'], f['err'][:300])
+        elif opt and opt.get('disk'):
+            what = ('a tree of %d small files ON DISK under the roots %s (configured rego-version per root; every file valid for the '
+                    'version of its root, the roots alternating in the list of paths), read with rules.InputFromPaths for %d round(s) and '
+                    'linted through WithInputPaths%s: %s'
+                    % (len(f['modules']), opt.get('roots'), opt.get('disk_rounds') or 1, ' under the race detector' if race else '', f['err'][:300]))
         elif opt and opt.get('large'):
             sets = opt.get('rule_sets') or []
             how = ('every rule enabled' if not opt.get('no_all') else '') + (', then ' if sets and not opt.get('no_all') else '') + \
@@ -72,6 +77,15 @@ def collect_location_issues(summ):
     loc.sort(key=lambda i: len(i['module'].get('text', '')))
     shift.sort(key=lambda i: (len(i['module'].get('text', '')), i['issue']['k']))
     return loc, shift
+
+
+def collect_mode_issues(summ):
+    """input-mode issues of the batches that went through every input mode (harness/corpus/modes.go)"""
+    out = []
+    for r in summ['results']:
+        out += r.get('mode_issues') or []
+    out.sort(key=lambda i: (i['kind'] == 'error', len(i['module'].get('text', '')), i['k']))
+    return out
 
 
 def corpus_stats(summ):
@@ -118,6 +132,10 @@ def corpus_stats(summ):
         'aggregate_text_differs_from_line': sum(r.get('agg_text_diff', 0) for r in res),
         'shift_pairs': sum(r.get('shift_pairs', 0) for r in res),
         'shift_skipped': sum(len(r.get('shift_skips') or []) for r in res),
+        'input_mode_pairs': {k: sum((r.get('mode_pairs') or {}).get(k, 0) for r in res)
+                             for k in sorted({k for r in res for k in (r.get('mode_pairs') or {})})},
+        'input_mode_issues': sum(len(r.get('mode_issues') or []) for r in res),
+        'disk_read_rounds': sum(r.get('disk_rounds', 0) for r in res),
         'worker_restarts': sum(1 for r in res if r.get('crash')),
         'harness_wall_ms': summ.get('wall_ms'),
     }
